@@ -1,15 +1,38 @@
-(* SrcTieLoops.v — the ITERATIVE geodesy code regenerated from the clang AST (gen/SrcFuns.v: loops become a local fix on
-   a fuel argument, see translate/srcfuns.py) equals the hand-written fuelled models the C01/C03 theorems are about:
+(* SrcTieC03.v — LambertConverter / EarthEllipsoid functions regenerated from the clang AST (gen/SrcFunsC03.v) equal the
+   models the C03 theorems are about: closed-form leaves, and the ITERATIVE code (loops become a local fix on a fuel
+   argument, see translate/srcfuns.py):
      LambertConverter::computeLatitude  = LambertModel.computeLatitude      (for(;;) { ...; if (|d| < EPSILON) break; })
      LambertConverter::toWGS84          = LambertModel.toWGS84
      computeProjectionParameters (x2)   = secant_projection / tangent_projection
-     ECEFConverter::toWGS84             = GeodesyModel.toWGS84              (while (delta > EPSILON) { ... })
-   for every fuel (induction on the fuel; the generated loop and the model loop run in lock step).  Literals differ in
-   representation only (2, 2., M_PI_2, 1.0, EPSILON): normalised by the [lits] rewriting. *)
+   for every fuel (induction on the fuel; the generated loop and the model loop run in lock step). *)
 From Coq Require Import Reals ZArith Lra.
 From Romea Require Import Num NumR GeodesyModel LambertModel SrcTie.
-From Romea.gen Require Import RepoConstants SrcFuns.
+From Romea.gen Require Import RepoConstants SrcFunsC03.
 Local Open Scope R_scope.
+
+Lemma dec_15_m1 : IZR 15 * powerRZ 10 (-1) = IZR meridional_radius_exponent_m * powerRZ 10 meridional_radius_exponent_e.
+Proof. reflexivity. Qed.
+
+Lemma tie_isometricLatitude lat e : src_isometricLatitude ROps lat e = isometricLatitude ROps lat e.
+Proof. unfold src_isometricLatitude, isometricLatitude. dict. lits. req. Qed.
+
+Lemma tie_grandeNormale lat a e : src_grandeNormale ROps lat a e = grandeNormale ROps lat a e.
+Proof. unfold src_grandeNormale, grandeNormale, pow2. dict. lits. req. Qed.
+
+Lemma tie_meridionalRadius lat (el : ellipsoid (T:=R)) :
+  src_meridionalRadius ROps lat (el_a el) (el_e el) (el_e2 el) = meridionalRadius ROps el lat.
+Proof. unfold src_meridionalRadius, meridionalRadius, pow2. dict. rewrite dec_15_m1. lits. req. Qed.
+
+Lemma tie_transversalRadius lat (el : ellipsoid (T:=R)) :
+  src_transversalRadius ROps lat (el_a el) (el_e el) = transversalRadius ROps el lat.
+Proof. unfold src_transversalRadius, transversalRadius, pow2. dict. lits. req. Qed.
+
+Lemma tie_toLambert (pr : projection (T:=R)) e (w : wgs84 (T:=R)) :
+  src_toLambert ROps (p_c pr) e (p_lon0 pr) (p_n pr) (w_lat w) (w_lon w) (p_xs pr) (p_ys pr)
+  = (v2x (toLambert ROps pr e w), v2y (toLambert ROps pr e w)).
+Proof.
+  unfold src_toLambert, toLambert. cbv zeta. rewrite tie_isometricLatitude. cbn [v2x v2y]. dict. req.
+Qed.
 
 (* ---- LambertConverter::computeLatitude ---- *)
 Lemma tie_computeLatitude fuel L e : src_computeLatitude ROps fuel L e = computeLatitude ROps fuel L e.
@@ -57,28 +80,3 @@ Proof.
   dict. cbn [p_lon0 p_n p_c p_xs p_ys]. req.
 Qed.
 
-(* ---- ECEFConverter::toWGS84 ---- *)
-(* the generated loop also carries `delta`; the model's lat_loop returns the latitude only: compare first components *)
-Lemma tie_ecefToWGS84 fuel (el : ellipsoid (T:=R)) (p : vec3 (T:=R)) :
-  src_ecefToWGS84 ROps fuel (vx p) (vy p) (vz p) (el_a el) (el_e2 el)
-  = match GeodesyModel.toWGS84 ROps fuel el p with None => None | Some g => Some (g_lat g, g_lon g, g_alt g) end.
-Proof.
-  unfold src_ecefToWGS84, GeodesyModel.toWGS84. cbv zeta.
-  match goal with |- match ?F fuel ?x0 ?d0 with _ => _ end = _ =>
-    assert (H : forall fu x d, option_map fst (F fu x d) =
-                lat_loop ROps fu el (vz p) (hnorm ROps (vx p) (vy p)) x d) end.
-  { induction fu as [|f IH]; intros x d.
-    - cbv beta iota fix zeta. cbn [lat_loop]. unfold ecef_eps. dict.
-      destruct (Rltb _ d); reflexivity.
-    - cbv beta iota fix zeta. cbn [lat_loop]. cbv zeta. unfold ecef_eps. dict.
-      destruct (Rltb _ d); [|reflexivity].
-      rewrite IH. unfold lat_body, hnorm. dict. lits. req. }
-  match goal with |- match ?F fuel ?x0 ?d0 with _ => _ end = _ =>
-    specialize (H fuel x0 d0); destruct (F fuel x0 d0) as [[l d]|] end;
-    cbn [option_map fst] in H; revert H;
-    unfold lat_first_guess, longitude_of, altitude_of, hnorm, ecef_initial_delta_m, ecef_initial_delta_e; dict; lits;
-    intros H;
-    match goal with H : _ = lat_loop _ _ _ _ _ ?a ?b |- context [lat_loop _ _ _ _ _ ?a' ?b'] =>
-      replace a' with a by req; replace b' with b by req end;
-    rewrite <- H; cbn [g_lat g_lon g_alt]; req.
-Qed.
